@@ -18,7 +18,10 @@ LEANCHECKER_MODULES = ["Bec2Verif.Props.C12"]
 
 NAMES = ["Testname", "x", "Lobby (version 01)", "a (version 99) b", "(version 07)", " lead", "trail ", "Tür ☃", "12345", "1-2-3",
          "name  with  spaces", "٣٤", "a\tb", "0", "None", "v (version 1)", "x (version 123)", ")", "(", "00001-0002-0003-04",
-         "٠٠٠٠١-٠٠٠٢-٠٠٠٣-٠٤ arabic digits"]
+         "٠٠٠٠١-٠٠٠٢-٠٠٠٣-٠٤ arabic digits",
+         # characters that mean something to a formatting or pattern language the name might be pushed through
+         "{", "}", "{}", "{0}", "{name}", "{{site}} door", "Reader {A}", "cfg {", "%s", "%d %", "100%", "\\d+", "a\\1", "$0", "^x$", ".*",
+         "[a-z]", "a|b", "x?", "(?P<n>y)", "\\", "'", '"', "name\u2028x", "a\x00b"]
 
 
 def sid(c, p, d, v, name):
